@@ -60,7 +60,7 @@ func DecodeWvttSR(hdr BoxHeader, startPos uint64, sr bits.SliceReader) (Box, err
 	// 14496-12 8.5.2.2 Sample entry (8 bytes)
 	sr.SkipBytes(6) // Skip 6 reserved bytes
 	w.DataReferenceIndex = sr.ReadUint16()
-	pos := startPos + nrWvttBytesBeforeChildren
+	pos := startPos + uint64(hdr.Hdrlen) + nrWvttBytesBeforeChildren - boxHeaderSize
 	endPos := startPos + uint64(hdr.Hdrlen+hdr.payloadLen())
 	for pos < endPos {
 		box, err := DecodeBoxSR(pos, sr)
